@@ -230,23 +230,41 @@ class ReqRun:
         self.loop.call_soon(f)
         self.step(1)
 
-    def respond(self, conn, how="resp", status=200):
+    def respond(self, conn, how="resp", status=200, pad=0, frame=None):
+        """pad: extra body bytes (a body much longer than what follows it); frame: plaintext bytes per encrypted frame
+        (small frames let the controller decrypt - and its HTTP layer see - the first piece of a split response)."""
         req = conn.unanswered[0]
-        body = A.hap_json({"r": req.rid})
+        body = A.hap_json({"r": req.rid, "pad": "x" * pad} if pad else {"r": req.rid})
         raw = H.response(status, body)
         self.log("acc_tx", s=conn.id + 1, kind=how, r=req.rid)
         conn.unanswered.remove(req)
-        wire = conn.session.seal(raw) if conn.session else raw
+        sizes = None
+        if conn.session and frame:
+            sizes = [frame] * (len(raw) // frame) + ([len(raw) % frame] if len(raw) % frame else [])
+        wire = conn.session.seal(raw, sizes) if conn.session else raw
         if how == "resp":
             conn.send_raw(wire)
         else:
-            cut = self._rng.randrange(1, len(wire))
+            if sizes:
+                k = self._rng.randrange(1, len(sizes)) if len(sizes) > 1 else 0      # cut on a frame boundary (+ a few bytes)
+                cut = sum(n + 18 for n in sizes[:k]) + self._rng.choice([0, 0, 1, 5]) if k else self._rng.randrange(1, len(wire))
+                cut = min(max(cut, 1), len(wire) - 1)
+            else:
+                cut = self._rng.randrange(1, len(wire))
             conn.send_raw(wire[:cut])
             self.half[conn.id] = wire[cut:]
 
-    def respond_rest(self, conn):
+    def respond_rest(self, conn, events_behind=0):
+        """The remaining bytes of a split response; with events_behind = k the accessory writes k EVENT messages right
+        behind them in the same segment (one read on the controller delivers the tail and the events together)."""
         rest = self.half.pop(conn.id)
         self.log("acc_tx", s=conn.id + 1, kind="rest", r=0)
+        for _ in range(events_behind):
+            n = self.ev_n.get(conn.id, 0) + 1
+            self.ev_n[conn.id] = n
+            self.log("acc_tx", s=conn.id + 1, kind="event", n=n)
+            raw = H.event(A.hap_json({"characteristics": [{"aid": conn.id + 1, "iid": n, "value": 1}]}))
+            rest += conn.session.seal(raw) if conn.session else raw
         conn.send_raw(rest)
 
     def event(self, conn, kind="ok"):
@@ -368,10 +386,11 @@ def stimulus(r: ReqRun, rng):
         r.respond(o[1], "resp", rng.choice([200, 200, 207, 404, 470]))
         return False
     if o[0] == "half":
-        r.respond(o[1], "half")
+        big = rng.random() < 0.3
+        r.respond(o[1], "half", pad=rng.choice([300, 900]) if big else 0, frame=rng.choice([None, 64, 150]))
         return False
     if o[0] == "rest":
-        r.respond_rest(o[1])
+        r.respond_rest(o[1], events_behind=rng.choice([0, 0, 1, 2]))
         return False
     if o[0] == "event":
         r.event(o[1])
@@ -501,6 +520,62 @@ def cancel_race_run(rng: random.Random, rid, variant: int, limit: int = 2):
                 if cur.unanswered:
                     r.respond(cur, "resp")
                 r.settle()
+        r.finish()
+        return r
+    except BaseException:
+        r.close()
+        raise
+
+
+def coalesce_run(rng: random.Random, rid, variant: int, limit: int = 1):
+    """Directed histories for 'EVENTs, however interleaved, are never consumed as a response' and 'response delivered in
+    pieces' (C08): the last piece of a split response arrives in the same segment as what the accessory sent next.
+    variant: 0 = tail + 1 EVENT; 1 = tail + 2 EVENTs; 2 = EVENT, then (first piece), then tail + EVENT; 3 = as 0 with a
+    large body so that the tail is shorter than the body; 4 = tail + EVENT, then the next request is answered whole;
+    5 = whole response + EVENT in one segment."""
+    r = ReqRun(limit=limit)
+    r._rng = rng
+    try:
+        r.connect()
+        conn = r.net.conns[-1]
+        for round_ in range(rng.randrange(1, 3)):
+            if not conn.open or r.next_r > r.nreq:
+                break
+            r.issue(rng.choice(["GET", "PUT"]))
+            r.settle()
+            if not (conn.open and conn.unanswered):
+                break
+            if variant == 2:
+                r.event(conn)
+                r.settle()
+            if variant == 5:
+                req = conn.unanswered[0]
+                raw = H.response(200, A.hap_json({"r": req.rid}))
+                r.log("acc_tx", s=conn.id + 1, kind="resp", r=req.rid)
+                conn.unanswered.remove(req)
+                wire = conn.session.seal(raw) if conn.session else raw
+                n = r.ev_n.get(conn.id, 0) + 1
+                r.ev_n[conn.id] = n
+                r.log("acc_tx", s=conn.id + 1, kind="event", n=n)
+                ev = H.event(A.hap_json({"characteristics": [{"aid": conn.id + 1, "iid": n, "value": 1}]}))
+                conn.send_raw(wire + (conn.session.seal(ev) if conn.session else ev))
+                r.settle()
+                continue
+            big = variant == 3 or rng.random() < 0.5
+            r.respond(conn, "half", pad=rng.choice([400, 700, 1500]) if big else 0,
+                      frame=rng.choice([64, 200]) if big or rng.random() < 0.5 else None)
+            r.settle()                                  # the controller has read (and, with small frames, decrypted) the first piece
+            r.respond_rest(conn, events_behind=2 if variant == 1 else 1)
+            r.settle()
+            if variant == 4 and conn.open and r.next_r <= r.nreq:
+                r.issue()
+                r.settle()
+                if conn.unanswered:
+                    r.respond(conn, "resp")
+                r.settle()
+        if rng.random() < 0.5 and conn.open:
+            r.event(conn)
+            r.settle()
         r.finish()
         return r
     except BaseException:
